@@ -490,7 +490,7 @@ def execute(scn):
             old_cur = dict(cur, cls=list(cur.get('cls') or []), sub=list(cur.get('sub') or []))
             try:
                 g_ = p.traces(SimReader(files[di]), targ)
-                lst = p.filter_subclass if h.get('which') == 'sub' else p.filter_class
+                lst = own.get('sub', p.filter_subclass) if h.get('which') == 'sub' else own.get('cls', p.filter_class)
                 if h['how'] == 'append':
                     lst.append(h['value'])
                 elif h['how'] == 'clear':
@@ -500,6 +500,7 @@ def execute(scn):
                         p.filter_subclass = [h['value']]
                     else:
                         p.filter_class = [h['value']]
+                    own['cls'], own['sub'] = p.filter_class, p.filter_subclass      # (the caller's references are the new objects)
                 items, exc = common.drain(g_)
             except Exception as e:
                 items, exc = [], e
